@@ -8,7 +8,10 @@ EXTENDS TarStream, Json, TarShapes
 VARIABLES reads, rep
 gvars == <<vars, reads, rep>>
 
-GenInit == Init /\ reads = <<>> /\ rep = FALSE
+\* truncation points inside the zero tail beyond the first end-of-archive block add nothing (the reader stops at the
+\* first zero block): they are left to the exhaustive configurations (MC_*) and to the byte-level truncation phase
+GenInit == /\ Init /\ reads = <<>> /\ rep = FALSE
+           /\ (trunc = ShapeTotal(sh) \/ trunc <= ShapeTotal(sh) - sh.tail + B)
 SetToSeq(S) == LET RECURSIVE F(_)
                    F(T) == IF T = {} THEN <<>> ELSE LET x == CHOOSE y \in T : TRUE IN <<x>> \o F(T \ {x})
                IN F(S)
